@@ -188,3 +188,11 @@ Proof.
     destruct (Z.eqb_spec (lz64 w) 64) as [He|He]; destruct (Z.leb_spec 0 w);
       destruct (Z.ltb_spec w 1); simpl; try reflexivity; exfalso; try lia.
 Qed.
+
+Lemma Zcount_def : forall P,
+  Zcount P 0 = 0 /\
+  forall n, Zcount P (S n) = Zcount P n + (if P (Z.of_nat n) then 1 else 0).
+Proof. intros. split; reflexivity. Qed.
+
+Lemma lz64_def : forall w, lz64 w = if w =? 0 then 64 else 63 - Z.log2 w.
+Proof. reflexivity. Qed.
